@@ -160,6 +160,19 @@ C("mako.runtime:_include_file",
                                          "implies(G.nraised > old(G.nraised) and G.verdicts == old(G.verdicts) + 1 and same(G.last_judged, G.last_raised), (not G.last_verdict) and same(raised, G.last_raised))")]}},
   props=["C07", "C13"], native_skip=True)
 
+# what _include_file has to hand to _populate_self_namespace (C07: an include is an independent template, with no link to the
+# includer's inheritance): the callee's own verified contract, plus a precondition that holds for this caller only
+import copy as _copy
+from vrf.pyvc.spec import CONTRACTS as _CT, Clause as _Clause
+_psn = _copy.copy(_CT["mako.runtime:_populate_self_namespace"])
+_psn.key = "mako.runtime:_populate_self_namespace@mako.runtime:_include_file"
+_psn.assumed = True
+_psn.props = []
+_psn.requires = list(_psn.requires) + [_Clause("the included template starts its own chain: no self / parent / next of the includer",
+                                               "'self' not in context._data and 'parent' not in context._data and 'next' not in context._data", "P")]
+_psn.note = "the verified contract of _populate_self_namespace with a call-site precondition for includes"
+_CT[_psn.key] = _psn
+
 ASSUME("mako.runtime:_render_error",
        params={"template": "Template", "context": "Context", "error": "Any"},
        modifies=_INC_MOD + ["ptr(context._with_template)", "G.verdicts", "G.last_verdict", "G.last_judged"],
